@@ -71,7 +71,7 @@ Lemma starts_hd45 k : item_ok k -> starts_operand k = true -> hdz (text k) = 45 
 Proof.
   intros Hk Hs H45. destruct k as [s|s|b f|o|s| | | | | | | |]; try discriminate.
   - destruct Hk as [Hw _]. destruct (word_shape_hd s Hw) as [_ Hs']. simpl in H45. rewrite H45 in Hs'. discriminate.
-  - destruct (num_last s Hk) as [_ Hd]. simpl in H45. rewrite H45 in Hd. discriminate.
+  - destruct (num_last s Hk) as [_ [Hd|Hd]]; simpl in H45; rewrite H45 in Hd; discriminate.
   - simpl in Hs. destruct (op_kind o) eqn:Ek; try discriminate.
     destruct (hd_neg_ops o Ek H45); subst; auto.
 Qed.
@@ -159,25 +159,25 @@ Proof.
   pose proof (need_holds mw prev st i r Hi Hr Hc) as N.
   rewrite <- (hdz_rest mw _ _ r Hr) in N. fold R in N.
   destruct i as [s|s|b f|o|s| | | | | | | |].
-  - destruct N as [N|[X _]]; [|discriminate]. simpl in N. apply andb_true_iff in N as [N N92].
+  - destruct N as [N|[[X _]|[X _]]]; [|discriminate|discriminate]. simpl in N. apply andb_true_iff in N as [N N92].
     apply negb_true_iff in N. apply negb_true_iff in N92.
     apply lex1_word; [destruct Hi; assumption | apply nohead_of_hdz; exact N | apply nohead_of_hdz; exact N92].
-  - destruct N as [N|[X _]]; [|discriminate]. simpl in N. apply andb_true_iff in N as [N1 N2].
+  - destruct N as [N|[[X _]|[X _]]]; [|discriminate|discriminate]. simpl in N. apply andb_true_iff in N as [N1 N2].
     apply negb_true_iff in N1.
     apply lex1_num; [exact Hi | apply nohead_of_hdz; exact N1 |].
     intro Hpl. apply nohead_of_hdz. change (plain_int (text (INum s))) with (no_dex s) in Hpl. rewrite Hpl in N2. simpl in N2. apply negb_true_iff in N2. exact N2.
-  - destruct N as [N|[X _]]; [|discriminate]. simpl in N. apply andb_true_iff in N as [N _]. apply negb_true_iff in N.
+  - destruct N as [N|[[X _]|[X _]]]; [|discriminate|discriminate]. simpl in N. apply andb_true_iff in N as [N _]. apply negb_true_iff in N.
     change (text (IRe b f) ++ R) with (47 :: (b ++ 47 :: f) ++ R). rewrite <- app_assoc. change ((47 :: f) ++ R) with (47 :: f ++ R).
     apply lex1_re; [eapply goal_regex; exact Hc | exact Hi | apply nohead_of_hdz; exact N].
   - destruct (op_facts o) as (Fh & Fn & Fk). simpl text. unfold last_tok. simpl toks_of.
     destruct (op_is_keyword o) eqn:Ew.
-    + destruct N as [N|[X _]]; [|inversion X; subst; discriminate]. simpl in N. rewrite Ew in N.
+    + destruct N as [N|[[X _]|[X _]]]; [|inversion X; subst; discriminate|discriminate]. simpl in N. rewrite Ew in N.
       apply andb_true_iff in N as [N N92]. apply negb_true_iff in N. apply negb_true_iff in N92.
       destruct (Fk eq_refl) as (_ & Hs & Hall & _). simpl last.
       apply lex1_id; [|apply nohead_of_hdz; exact N | apply nohead_of_hdz; exact N92].
       split; [apply op_text_nonempty | split; assumption].
     + destruct (Fn eq_refl) as (_ & H46 & _ & _ & Hpu & Hq). simpl last.
-      destruct N as [N|(X & Ep & r' & Er & Epre)].
+      destruct N as [N|[(X & Ep & r' & Er & Epre)|[X _]]]; [| |discriminate].
       * simpl in N. rewrite Ew in N. apply negb_true_iff in N.
         apply punct_follow_char; try assumption.
         -- intro H47. eapply goal_div; eassumption.
@@ -206,7 +206,7 @@ Proof.
         -- simpl. discriminate.
         -- discriminate.
   - (* IDot *)
-    destruct N as [N|[X _]]; [|discriminate]. simpl in N. apply andb_true_iff in N as [N N92].
+    destruct N as [N|[[X _]|[X _]]]; [|discriminate|discriminate]. simpl in N. apply andb_true_iff in N as [N N92].
     apply negb_true_iff in N. apply negb_true_iff in N92.
     destruct Hi as [Hs Hw]. pose proof Hs as (Hne & Hst & Hall).
     split.
@@ -220,24 +220,31 @@ Proof.
       * simpl. discriminate.
       * intros _. rewrite Hh. exact Hd.
     + apply lex1_id; [exact Hs | apply nohead_of_hdz; exact N | apply nohead_of_hdz; exact N92].
-  - destruct N as [N|[X _]]; [|discriminate]. simpl in N. apply negb_true_iff in N.
+  - destruct N as [N|[[X _]|[X _]]]; [|discriminate|discriminate]. simpl in N. apply negb_true_iff in N.
     apply punct_follow_char; try reflexivity; try exact N; simpl; discriminate.
-  - destruct N as [N|[X _]]; [|discriminate]. simpl in N. apply negb_true_iff in N.
+  - destruct N as [N|[[X _]|[X _]]]; [|discriminate|discriminate]. simpl in N. apply negb_true_iff in N.
     apply punct_follow_char; try reflexivity; try exact N; simpl; discriminate.
-  - destruct N as [N|[X _]]; [|discriminate]. simpl in N. apply negb_true_iff in N.
+  - destruct N as [N|[[X _]|(_ & Ep & s' & r' & Er & Epre)]]; [|discriminate|].
+    2: { (* "?" directly followed by a number that starts with ".": "?." before a digit is "?" *)
+      subst r. inversion Hr as [|? ? Hnum Hr']; subst.
+      destruct (num_dot_inv s' Hnum) as (d & s'' & Es & Hd). subst s'.
+      assert (ER : exists R2, R = 46 :: d :: R2).
+      { unfold R. rewrite Ep. change (sp false) with (@nil Z). rewrite app_nil_l, render_cons, Epre. change (sp false) with (@nil Z). simpl text. simpl app. eexists. reflexivity. }
+      destruct ER as [R2 ER]. rewrite ER. simpl text. apply lex1_quest_dot. exact Hd. }
+    simpl in N. apply negb_true_iff in N.
     apply punct_follow_char; try reflexivity; try exact N; simpl; discriminate.
-  - destruct N as [N|[X _]]; [|discriminate]. simpl in N. apply negb_true_iff in N.
+  - destruct N as [N|[[X _]|[X _]]]; [|discriminate|discriminate]. simpl in N. apply negb_true_iff in N.
     apply punct_follow_char; try reflexivity; try exact N; simpl; discriminate.
-  - destruct N as [N|[X _]]; [|discriminate]. simpl in N. apply negb_true_iff in N.
+  - destruct N as [N|[[X _]|[X _]]]; [|discriminate|discriminate]. simpl in N. apply negb_true_iff in N.
     apply punct_follow_char; try reflexivity; try exact N; simpl; discriminate.
-  - destruct N as [N|[X _]]; [|discriminate]. simpl in N. apply negb_true_iff in N.
+  - destruct N as [N|[[X _]|[X _]]]; [|discriminate|discriminate]. simpl in N. apply negb_true_iff in N.
     apply punct_follow_char; try reflexivity; try exact N; simpl; discriminate.
   - (* new *)
-    destruct N as [N|[X _]]; [|discriminate]. simpl in N. apply andb_true_iff in N as [N N92].
+    destruct N as [N|[[X _]|[X _]]]; [|discriminate|discriminate]. simpl in N. apply andb_true_iff in N as [N N92].
     apply negb_true_iff in N. apply negb_true_iff in N92.
     apply lex1_id; [|apply nohead_of_hdz; exact N | apply nohead_of_hdz; exact N92].
     repeat split; try discriminate; reflexivity.
-  - destruct N as [N|[X _]]; [|discriminate]. simpl in N. apply negb_true_iff in N.
+  - destruct N as [N|[[X _]|[X _]]]; [|discriminate|discriminate]. simpl in N. apply negb_true_iff in N.
     apply punct_follow_char; try reflexivity; try exact N; simpl; discriminate.
 Qed.
 
